@@ -137,8 +137,29 @@ def run(ctx):
 
     # ---------------------------------------------------------------- compare
     fc = model.method(P, "FuncCompare", "execute")
-    t = norm(fc.node).replace("\n", " ")
-    ok = "if a < b: return ValueInt(-1) elif a > b: return ValueInt(1) else: return ValueInt(0)" in t
+    from .common import decision_list
+    dl = decision_list(fc.node)
+    ok = False
+    if dl:
+        # outcomes by what was established about a < b / a > b on the path (any nesting or order of the tests)
+        got = {}
+        fine = True
+        for facts_, ret in dl:
+            lt = gt = None
+            for t_, pol in facts_:
+                try:
+                    form = _as_lt(ast.parse(t_, mode="eval").body)
+                except SyntaxError:
+                    form = None
+                if form == ("a", "b"):
+                    lt = pol
+                elif form == ("b", "a"):
+                    gt = pol
+            val = norm(ret)
+            key_ = "lt" if lt else "gt" if gt else "eq" if (lt is False and gt is False) else None
+            if key_ is None or got.setdefault(key_, val) != val:
+                fine = False
+        ok = fine and got == {"lt": "ValueInt(-1)", "gt": "ValueInt(1)", "eq": "ValueInt(0)"}
     ctx.check("C07.compare", fc, None, ok, "compare is not -1 for a < b, 1 for a > b, else 0",
               expr="compare body", site="FuncCompare.execute: built from < and >")
 
@@ -156,17 +177,34 @@ def run(ctx):
     ctx.check("C07.sorted", fs, res, ok, "sorted does not work on a copy of the list payload",
               expr="sorted copy", site="FuncSorted.execute: result = lst.value[:]")
     # exchange guarded by a strict comparison
-    ifs = [n for n in ast.walk(fs.node) if isinstance(n, ast.If) and "comparison" in norm(n.test)]
-    ifs = [n for n in ifs if _as_lt(n.test) is not None]
-    ok = len(ifs) == 1 and _as_lt(ifs[0].test) in (("comparison < 0".split(" < ")[0], "0"), ("comparison.value", "0")) \
-        and len(ifs[0].orelse) == 1 \
-        and isinstance(ifs[0].orelse[0], ast.Break)
+    # exchange guarded by a strict comparison, otherwise the scan stops (normal form: `if not (c < 0): break` and
+    # then the exchange; the rule accepts the if/else spelling as well)
+    ifs = [n for n in ast.walk(fs.node) if isinstance(n, ast.If) and "comparison" in norm(n.test) and not any(
+        isinstance(x, ast.Raise) for x in ast.walk(n))]
+    ok = len(ifs) == 1
+    swap = []
+    if ok:
+        n_ = ifs[0]
+        neg = isinstance(n_.test, ast.UnaryOp) and isinstance(n_.test.op, ast.Not)
+        lt = _as_lt(n_.test.operand if neg else n_.test)
+        ok = lt == ("comparison.value", "0")
+        if ok and neg:
+            ok = len(n_.body) == 1 and isinstance(n_.body[0], ast.Break) and not n_.orelse
+            # the exchange is what follows in the same block
+            for blk in ast.walk(fs.node):
+                for fld in ("body", "orelse"):
+                    lst_ = getattr(blk, fld, None)
+                    if isinstance(lst_, list) and n_ in lst_:
+                        swap = lst_[lst_.index(n_) + 1:]
+        elif ok:
+            ok = len(n_.orelse) == 1 and isinstance(n_.orelse[0], ast.Break)
+            swap = n_.body
     ctx.check("C07.sorted", fs, ifs[0] if ifs else None, ok,
               "elements are exchanged on a non-strict comparison or the scan does not stop at the first "
               "non-smaller element: equal elements lose their original order", expr="exchange guard",
               site="FuncSorted.execute: exchange only if comparison < 0, else stop")
     if ok:
-        ok2 = _adjacent_swap(ifs[0].body, {"result[j]", "result[j + 1]"})
+        ok2 = _adjacent_swap(swap, {"result[j]", "result[j + 1]"})
         ctx.check("C07.sorted", fs, ifs[0], ok2, "the exchange is not an adjacent swap of result[j] and result[j+1]",
                   expr="adjacent swap", site="FuncSorted.execute: adjacent swap")
     stores = [n for n in ast.walk(fs.node) if isinstance(n, (ast.Assign, ast.AugAssign, ast.Delete))
